@@ -40,6 +40,48 @@ def cmp_c01(case, impl, model):
     return None
 
 
+def _trace(line):
+    line = line.split(" ## ")[0]
+    parts = line.split(" || ", 1)
+    ev = parts[0].split(" ; ") if parts[0] else []
+    rs = parts[1] if len(parts) > 1 else ""
+    return ev, rs
+
+
+def _proj(keep):
+    """comparator that projects the event trace of a session to the kinds a property pins (plus the call results)"""
+    def cmp(case, impl, model):
+        if not case.startswith("S "):
+            return None if impl == model else "implementation and model differ"
+        if impl.startswith("PANIC") or impl == "HANG":
+            return "the real client panicked or hung: " + impl[:200]
+        ei, ri = _trace(impl)
+        em, rm = _trace(model)
+        if ri != rm:
+            return "call results differ"
+        pi = [e for e in ei if keep(e)]
+        pm = [e for e in em if keep(e)]
+        if pi != pm:
+            for k, (a, b) in enumerate(zip(pi, pm)):
+                if a != b:
+                    return "event %d differs: real client '%s', model '%s'" % (k, a[:80], b[:80])
+            return "the real client produced %d pinned events, the model %d" % (len(pi), len(pm))
+        return None
+    return cmp
+
+
+def _k(*prefixes):
+    return lambda e: any(e.startswith(p) for p in prefixes)
+
+
+def _logs_dump_tree(e):
+    return e.startswith("LOG ") and (e.endswith(" dump") or e.endswith(" tree"))
+
+
+CLIENT_ASSUME = ["net.Conn delivers bytes in order and honours armed deadlines (the scripted connection and loopback TCP do)",
+                 "the verif hook VerifAttachConn only sets the client's conn field (attach mode starts with connection 0 established; connect() itself is exercised in tcp mode)",
+                 "reply frames handed to the client are encoded with rscp.Write on the harness's own cipher states (C01 ties Write to the model)"]
+
 CODEC_ASSUME = ["github.com/azihsoyn/rijndael256 + crypto/cipher CBC compute the Gallina Rijndael-256/CBC (compared byte for byte on every W/R case of this run)",
                 "hash/crc32.ChecksumIEEE computes the Gallina bit-serial CRC-32 (compared on this run)",
                 "encoding/binary little-endian layout, time.Unix normalisation as modelled"]
@@ -49,6 +91,18 @@ PROPS = {
     "C02": {"exec": "C02", "assumptions": CODEC_ASSUME + ["PARTIAL: absence of Go panics and wall-clock promptness are established by the correspondence run only (a recovered panic or a 20 s timeout is a mismatch)"]},
     "C03": {"exec": "C03", "assumptions": CODEC_ASSUME},
     "C04": {"exec": "C04", "assumptions": CODEC_ASSUME},
+    "C16": {"exec": "C16", "assumptions": ["the error text of NewClient names a missing field by the words address / username / password / key, and a bad checksum option by UseChecksum"]},
+    "C18": {"exec": "C18", "assumptions": ["github.com/spali/go-slicereader delivers the arguments in order and reports the end of the slice as EOS"]},
+    "C05": {"exec": "C05", "compare": _proj(_k("WRITE")), "assumptions": CODEC_ASSUME + CLIENT_ASSUME},
+    "C06": {"exec": "C06", "compare": _proj(_k("FRAME")), "assumptions": CODEC_ASSUME + CLIENT_ASSUME + ["the loopback device never calls package rscp: it decrypts with crypto/cipher + rijndael256 under its own key padding and per-connection IV"]},
+    "C07": {"exec": "C07", "compare": _proj(_k("READ", "WRITE")), "assumptions": CODEC_ASSUME + CLIENT_ASSUME},
+    "C08": {"exec": "C08", "compare": _proj(_k("FRAME")), "assumptions": CODEC_ASSUME + CLIENT_ASSUME + ["the peer answers each request it receives once and in order (the scripted device does)"]},
+    "C09": {"exec": "C09", "compare": _proj(_k("WRITE")), "assumptions": CODEC_ASSUME + CLIENT_ASSUME},
+    "C10": {"exec": "C10", "compare": _proj(_k("SETWD", "SETRD", "WRITE", "READ", "CLOSE")),
+            "assumptions": CLIENT_ASSUME + ["PARTIAL: wall-clock time, the scheduler and the kernel honouring deadlines are outside the model; time is virtual in the scripted connection"]},
+    "C11": {"exec": "C11", "compare": _proj(lambda e: _logs_dump_tree(e) or e.startswith("WRITE")),
+            "assumptions": CLIENT_ASSUME + ["PARTIAL: fmt/logrus rendering is not modelled; the rendered log text is scanned (literal, hex, base64, byte dumps parsed back)",
+                                            "ciphertext does not contain the password as a substring (cipher_hides premise of C11_no_secret)"]},
     "C14": {
         "exec": "C14",
         "exhaustive": True,
